@@ -31,7 +31,7 @@ use swc::{
 use swc_common::{
     comments::Comments,
     errors::{ColorConfig, Handler},
-    FileName, FilePathMapping, SourceFile, Span, DUMMY_SP,
+    BytePos, FileName, FilePathMapping, SourceFile, Span, DUMMY_SP,
 };
 use swc_ecma_ast::{EsVersion, Program, Stmt};
 
@@ -294,38 +294,50 @@ fn extract_source_map<R: Read>(
     comments: &SwcComments,
     file_reader: &impl FileReader<R>,
 ) -> OriginalSourceMap {
-    let mut source_map_comment = None;
-    let mut source: Option<SourceMap> = None;
+    // the reference is the last such comment of the file (the map of comments is iterated in an
+    // arbitrary order, which must not decide which one is used)
+    let mut last_reference: Option<(BytePos, String)> = None;
     for trailing in comments.trailing.iter() {
+        let position = *trailing.key();
         for comment in trailing.iter() {
-            let trim_comment = comment.text.trim();
-            if trim_comment.starts_with(SOURCE_MAP_URL) {
-                source_map_comment = Some(String::from(comment.text.as_str()));
-                let url = trim_comment.get(SOURCE_MAP_URL.len()..).unwrap();
-                source = decode_data_url(&without_data_url_parameters(url))
-                    .map_err(Error::new)
-                    .or_else(|_| {
-                        let source_path = PathBuf::from(url);
-                        let final_path = if source_path.is_absolute() {
-                            source_path
-                        } else {
-                            // a file name without directory ("", "/") has no parent: resolve
-                            // the map relative to the current directory instead of panicking
-                            let folder = file_reader
-                                .parent(Path::new(file_path))
-                                .unwrap_or_default();
-                            folder.join(source_path)
-                        };
-
-                        decode(file_reader.read(&final_path)?)
-                    })
-                    .ok()
-                    .and_then(|it| match it {
-                        DecodedMap::Regular(source) => Some(source),
-                        _ => None,
-                    });
+            if comment.text.trim().starts_with(SOURCE_MAP_URL)
+                && last_reference
+                    .as_ref()
+                    .map_or(true, |(last_position, _)| position >= *last_position)
+            {
+                last_reference = Some((position, String::from(comment.text.as_str())));
             }
         }
+    }
+
+    let mut source_map_comment = None;
+    let mut source: Option<SourceMap> = None;
+    if let Some((_, comment_text)) = last_reference {
+        let trim_comment = comment_text.trim();
+        let url = trim_comment.get(SOURCE_MAP_URL.len()..).unwrap();
+        source = decode_data_url(&without_data_url_parameters(url))
+            .map_err(Error::new)
+            .or_else(|_| {
+                let source_path = PathBuf::from(url);
+                let final_path = if source_path.is_absolute() {
+                    source_path
+                } else {
+                    // a file name without directory ("", "/") has no parent: resolve
+                    // the map relative to the current directory instead of panicking
+                    let folder = file_reader
+                        .parent(Path::new(file_path))
+                        .unwrap_or_default();
+                    folder.join(source_path)
+                };
+
+                decode(file_reader.read(&final_path)?)
+            })
+            .ok()
+            .and_then(|it| match it {
+                DecodedMap::Regular(source) => Some(source),
+                _ => None,
+            });
+        source_map_comment = Some(comment_text);
     }
 
     if source_map_comment.is_some() {
